@@ -529,7 +529,7 @@ fn spawn_worker(
 }
 
 /// Confirmed watchdog firings per phase after which the remainder of the phase is not explored.
-const MAX_CONFIRMED_HANGS: u32 = 6;
+const MAX_CONFIRMED_HANGS: u32 = 4;
 
 fn n_shards() -> u64 {
     std::env::var("VERIF_JOBS")
